@@ -369,6 +369,25 @@ def next_rules(run, r_sel, r_always, ast):
                 elif n.get("k") in ("BinaryOperator", "CXXOperatorCallExpr") and (n.get("op") == "=" or n.get("oop") == "=") and _did_in((n["c"][0] if n.get("k") == "BinaryOperator" else n["c"][1]), cdid):
                     writers.append(n)
             good = [w for w in writers if w.get("k") == "CallExpr" and re.match(r"^std::copy_if<", w.get("callee") or "") and any(c0 is x for c0 in calls for x in astq.walk(w))]
+            # the pool the filter runs over holds ALL the method's definitions when the first candidate list is built: it is
+            # filled once, from the method's whole definition list, outside (before) the loop over the definitions
+            if good:
+                srcs = [x["ref"]["did"] for x in astq.walk(good[0]["c"][1]) if x.get("k") == "DeclRefExpr" and x["ref"].get("storage") == "local"]
+                if srcs:
+                    sdid = srcs[0]
+                    fills = []
+                    for n in astq.walk(f["body"]):
+                        if n.get("k") == "CallExpr" and re.match(r"^std::\w+<", n.get("callee") or "") and any(x.get("k") == "CallExpr" and re.match(r"^std::(back_inserter|inserter)<", x.get("callee") or "") and _did_in(x, sdid) for x in astq.walk(n)):
+                            fills.append(n)
+                        elif n.get("k") == "CXXMemberCallExpr" and re.search(r"::(push_back|emplace_back|insert|assign)$", n.get("callee") or "") and _did_in(n["c"][0], sdid):
+                            fills.append(n)
+                    inside = [w for w in fills if _in_subtree(loop["body"], w)]
+                    whole = [w for w in fills if w.get("k") == "CallExpr" and any(x.get("k") == "MemberExpr" and x.get("member") == "specs" for x in astq.walk(w["c"][1])) and w["l"] < loop["l"]]
+                    okp = bool(whole) and not inside
+                    run.instance(r_sel, "%s: the pool of definitions the candidates are drawn from is complete before the first definition is processed" % short(f), (f["file"], (fills or [good[0]])[0]["l"]), ok=okp)
+                    if not okp:
+                        run.violation(r_sel, "compiler::build_dispatch_tables|candidate-pool", "the pool the candidate filter runs over is %s: a strictly more general definition registered later than the one being processed is not a candidate for its next" % (
+                            "extended inside the loop over the definitions (`%s`)" % astq.text(inside[0])[:60] if inside else "not filled from the method's whole definition list before the loop"), (f["file"], (inside or fills or [good[0]])[0]["l"]))
             extra = [w for w in writers if w not in good]
             cond = [w for w in good if [i for i in _enclosing(cparent, w, ("IfStmt", "SwitchStmt", "ConditionalOperator")) if _in_subtree(comp, i)]]
             okw = len(good) == 1 and not extra and not cond
@@ -904,6 +923,25 @@ def hash_rules(run, r_accept, r_same, r_publish, r_checked, r_allids, ast):
     hts = {re.sub(r"::hash_type_id$", "", f["name"]): f for f in _fn(ast, r"fast_perfect_hash<[^()]*>::hash_type_id$")}
     for f in his:
         loops = _idloops(f)
+        # one way out with parameters installed: a second return (a shortcut that keeps or reuses parameters without a complete
+        # scan of the current ids) is a violation whatever else the function looks like
+        rets_ = [n for n in astq.walk(f["body"]) if n.get("k") == "ReturnStmt"]
+        if r_accept and len(rets_) > 1:
+            run.instance(r_accept, "%s: parameters are accepted at one place only, after a complete scan" % short(f), (f["file"], rets_[0]["l"]), ok=False)
+            run.violation(r_accept, "fast_perfect_hash::hash_initialize|several-exits", "hash_initialize returns from %d places (lines %s): parameters can be kept or accepted without the complete collision-free scan that sets hash_length" % (
+                len(rets_), ", ".join(str(r_["l"]) for r_ in rets_)), (f["file"], rets_[0]["l"]))
+            continue
+        # the verdict of a scan is monotone: once an id collides the scan has failed, a later id cannot make it succeed again
+        flags_ = [d["did"] for n in astq.walk(f["body"]) if n.get("k") == "DeclStmt" for d in n["decls"] if d["type"] == "bool" and not d.get("const")]
+        if r_accept and flags_ and len(loops) == 1:
+            inner_ = loops[0][1]
+            reasg = [n for n in astq.walk(inner_["body"]) if n.get("k") == "BinaryOperator" and n.get("op") == "=" and astq.strip(n["c"][0]).get("k") == "DeclRefExpr" and astq.strip(n["c"][0])["ref"].get("did") in flags_
+                     and not (astq.strip(n["c"][1]).get("k") == "CXXBoolLiteralExpr" and not astq.strip(n["c"][1]).get("v"))]
+            guarded = inner_.get("cond") is not None and any(x.get("k") == "DeclRefExpr" and x["ref"].get("did") in flags_ for x in astq.walk(inner_["cond"]))
+            if reasg and not guarded:
+                run.instance(r_accept, "%s: a collision is final for the scan" % short(f), (f["file"], reasg[0]["l"]), ok=False)
+                run.violation(r_accept, "fast_perfect_hash::hash_initialize|verdict-overwritten", "`%s` re-computes the scan's verdict for every id while the loop over a class's ids goes on: a collision on one id is overwritten by the verdict of the next, and a colliding multiplier is accepted" % astq.text(reasg[0])[:90], (f["file"], reasg[0]["l"]))
+                continue
         if r_allids:
             run.instance(r_allids, "%s scans every id of every class of [first, last)" % short(f), (f["file"], f["line"]), ok=len(loops) == 1)
             if len(loops) != 1:
